@@ -70,8 +70,8 @@ def _label(li, cond, direct):
 COORDS = {
     "blocks": [("kind", 3), ("uuid", 2), ("dm", 2), ("off", "u64"), ("size", "u64")],
     "symbols": [("uuid", 2), ("name", 3), ("pk", 3), ("rk", 3), ("val", "u64"), ("at_end", "bool")],
-    "exprs": [("kind", 2), ("s1", 2), ("s2", 2), ("amask", 8), ("off", "i64"), ("scale", "i64")],
-    "intervals": [("uuid", 2), ("clen", 3), ("c0", 2), ("nblk", 3), ("bk", 2), ("nexp", 3), ("addr", "opt"), ("size", "u64"), ("boff", "u64")],
+    "exprs": [("kind", 2), ("s1", 2), ("s2", 2), ("amask", 8), ("sname", 2), ("sown", 2), ("off", "i64"), ("scale", "i64")],
+    "intervals": [("uuid", 2), ("clen", 3), ("c0", 2), ("nblk", 3), ("bk", 2), ("nexp", 5), ("addr", "opt"), ("size", "u64"), ("boff", "u64")],
     "sections": [("uuid", 2), ("name", 3), ("fmask", 4), ("nbi", 3), ("isz", "u64")],
     "modules": [("uuid", 2), ("which", 5), ("val", 3), ("kids", 4), ("ep", 2), ("aux", 4), ("pa", "u64"), ("rd", "i64")],
     "irs": [("uuid", 2), ("nmod", 3), ("e1", 3), ("l1", 3), ("e2", 2), ("aux", 3), ("ver", "u32"), ("c1", "bool"), ("d1", "bool")],
@@ -91,8 +91,11 @@ def build(kind, v, order):
             o = gtirb.Symbol(NAMES[v["name"]], uuid=U(v["uuid"]), payload=ref)
         elif kind == "exprs":
             attrs = [ATTRS[i] for i in range(3) if (v["amask"] >> i) & 1]
-            y1 = gtirb.Symbol(NAMES[1], uuid=U(20 + v["s1"]))
+            # the first symbol's name varies, and it may be owned by a module (each side has its own module object)
+            y1 = gtirb.Symbol(NAMES[1 + v["sname"]], uuid=U(20 + v["s1"]))
             y2 = gtirb.Symbol(NAMES[1], uuid=U(20 + v["s2"]))
+            if v["sown"]:
+                y1.module = gtirb.Module(name="own", uuid=U(70))
             o = gtirb.SymAddrConst(0, y1, attributes=attrs) if v["kind"] == 0 else gtirb.SymAddrAddr(0, 0, y1, y2, attributes=attrs)
         elif kind == "intervals":
             o = gtirb.ByteInterval(uuid=U(v["uuid"]), size=8, contents=bytes([(1, 200)[v["c0"]], 7][:v["clen"]]))
@@ -107,7 +110,11 @@ def build(kind, v, order):
                 b.byte_interval = o
             o._first = blks[-1 if order else 0] if blks else None
             if v["nexp"]:
-                o.symbolic_expressions[4 if v["nexp"] == 2 else 0] = gtirb.SymAddrConst(1, gtirb.Symbol("a", uuid=U(20)))
+                # 1: at offset 0; 2: at offset 4; 3: as 1 with the symbol owned by a module; 4: as 3 with another symbol name
+                y = gtirb.Symbol("b" if v["nexp"] == 4 else "a", uuid=U(20))
+                if v["nexp"] >= 3:
+                    y.module = gtirb.Module(name="own", uuid=U(70))
+                o.symbolic_expressions[4 if v["nexp"] == 2 else 0] = gtirb.SymAddrConst(1, y)
         elif kind == "sections":
             o = gtirb.Section(name=NAMES[v["name"]], uuid=U(v["uuid"]), flags=[FLAGS[i] for i in range(2) if (v["fmask"] >> i) & 1])
             bis = []
@@ -227,11 +234,11 @@ def canon(kind, v):
         return (g("uuid"), g("name"), g("at_end"), pay)
     if kind == "exprs":
         if g("kind") == 0:
-            return (0, g("off"), g("s1"), g("amask"))
-        return (1, g("off"), g("scale"), g("s1"), g("s2"), g("amask"))
+            return (0, g("off"), g("s1"), g("sname"), g("amask"))
+        return (1, g("off"), g("scale"), g("s1"), g("sname"), g("s2"), g("amask"))
     if kind == "intervals":
         blk = (g("nblk"),) + ((g("bk"), g("boff")) if g("nblk") >= 1 else ())
-        return (g("uuid"), g("addr"), g("size"), g("clen"), g("c0") if g("clen") >= 1 else None, blk, g("nexp"))
+        return (g("uuid"), g("addr"), g("size"), g("clen"), g("c0") if g("clen") >= 1 else None, blk, {3: 1}.get(g("nexp"), g("nexp")))   # Symbol.deep_eq does not look at the owner
     if kind == "sections":
         return (g("uuid"), g("name"), g("fmask"), g("nbi"), g("isz") if g("nbi") >= 1 else None)
     if kind == "modules":
@@ -381,7 +388,7 @@ REPLAY_ATTEMPTS = 5
 SLICES = {
     "blocks": [{"kind": 0, "uuid": 0, "dm": 1}, {"kind": 1, "uuid": 1, "dm": 0}],
     "symbols": [{"uuid": 0, "name": 1, "pk": 2, "rk": 0}, {"uuid": 1, "name": 0, "pk": 1, "rk": 1}],
-    "exprs": [{"kind": 1, "s1": 0, "s2": 1, "amask": 5}, {"kind": 0, "s1": 1, "s2": 0, "amask": 2}],
+    "exprs": [{"kind": 1, "s1": 0, "s2": 1, "amask": 5, "sname": 0, "sown": 1}, {"kind": 0, "s1": 1, "s2": 0, "amask": 2, "sname": 1, "sown": 0}],
     "intervals": [{"uuid": 0, "clen": 2, "c0": 1, "nblk": 2, "bk": 0, "nexp": 1}, {"uuid": 1, "clen": 1, "c0": 0, "nblk": 1, "bk": 1, "nexp": 2}],
     "sections": [{"uuid": 0, "name": 1, "fmask": 1, "nbi": 2}, {"uuid": 1, "name": 2, "fmask": 2, "nbi": 1}],
     "modules": [{"uuid": 0, "which": 0, "val": 1, "kids": 3, "ep": 1, "aux": 1}, {"uuid": 1, "which": 2, "val": 2, "kids": 1, "ep": 0, "aux": 3}],
